@@ -5,7 +5,8 @@
 (*                                                                            *)
 (* trace.ndjson holds one line per schedule:                                  *)
 (*   {"case":n, "prog":{"msgs":[[b,..],..],"hold":[[n,..],..],"ctl":[[op,..],..],*)
-(*                      "rd":[op,..],"closer":b},                             *)
+(*                      "rd":[op,..],"cx":[{"p":proc,"c":call,"n":parts},..], *)
+(*                      "closer":b},                                          *)
 (*    "ev":[event,..], "frames":[{"cls":c,"w0":i,"w1":j},..], "delivered":[m,..]} *)
 (* An event has the fields ev, proc, call, frame, part, cls, ok, res:         *)
 (*   begin   the application of `proc` makes call number `call` (recorded by  *)
@@ -14,7 +15,7 @@
 (*   resume  the application of D, which had paused with its message open,    *)
 (*           is let go on (recorded by the scheduler before it does)          *)
 (*   twrite  one net.Conn.Write of `proc`, in the transport's total order;    *)
-(*           frame/part in {"hdr","extra","ctl"} from the tokenisation of the *)
+(*           frame/part in {"hdr","extra","ctl","cext"} from the tokenisation of the *)
 (*           process' own byte stream, cls the class of the frame header      *)
 (*           ("first", "cont" [+"+fin"], "ping", "pong", "close"; "raw" for   *)
 (*           an extra; "bad"/"foreign.." never accepted); ok = it succeeded   *)
@@ -48,7 +49,7 @@ Max(a, b) == IF a >= b THEN a ELSE b
 
 \* the class of frame header the contract predicts for the write process p is about to make
 DataCls(m, f) == (IF f = 1 THEN "first" ELSE "cont") \o (IF f = Len(prog.msgs[m]) THEN "+fin" ELSE "")
-WriteCls(p) == IF pc[p] = "extra" THEN "raw"
+WriteCls(p) == IF pc[p] \in {"extra", "cext"} THEN "raw"
                ELSE IF p = "D" THEN DataCls(call[p], fr) ELSE Op(p)
 
 TBegin(e) == /\ e.ev = "begin"
@@ -58,10 +59,10 @@ TBegin(e) == /\ e.ev = "begin"
 
 TWriteEv(e) == /\ e.ev = "twrite"
                /\ e.proc \in Procs \ {"X"}
-               /\ pc[e.proc] \in {"hdr", "extra", "ctl"}
+               /\ pc[e.proc] \in {"hdr", "extra", "ctl", "cext"}
                /\ e.part = pc[e.proc]
                /\ e.call = call[e.proc]
-               /\ e.frame = (IF e.proc = "D" THEN fr ELSE 1)
+               /\ e.frame = (IF e.proc = "D" THEN fr ELSE PartsDone(e.proc) + 1)
                /\ e.cls = WriteCls(e.proc)
                /\ e.ok = ~closed
                /\ TWrite(e.proc)
@@ -93,7 +94,10 @@ ModelFrames(k) ==
                 ELSE <<[cls |-> "partial", w0 |-> k, w1 |-> k]>>
        ELSE IF e.part = "hdr"
          THEN <<[cls |-> DataCls(e.call, e.frame), w0 |-> k, w1 |-> k]>> \o ModelFrames(k + 1)
-       ELSE <<[cls |-> Code(CtlSeq(e.proc)[e.call]), w0 |-> k, w1 |-> k]>> \o ModelFrames(k + 1)
+       ELSE LET n == CParts(e.proc, e.call) IN    \* a control frame of n adjacent parts
+            IF k + n - 1 <= Len(wire)
+              THEN <<[cls |-> Code(CtlSeq(e.proc)[e.call]), w0 |-> k, w1 |-> k + n - 1]>> \o ModelFrames(k + n)
+              ELSE <<[cls |-> "partial", w0 |-> k, w1 |-> Len(wire)]>>
 
 \* the complete messages are a prefix 1..n of the program (InOrder)
 Prefix(n) == [m \in 1..n |-> m]
